@@ -39,12 +39,13 @@ fn ser<T: Serialize>(t: &T) -> Value {
 }
 
 /// deserialize, serialize back, and round-trip once more
-pub fn de<T: DeserializeOwned + Serialize>(arg: &str) -> Value {
+pub fn de<T: DeserializeOwned + Serialize + std::fmt::Debug>(arg: &str) -> Value {
     guard(|| match serde_json::from_str::<T>(arg) {
         Err(e) => json!({"ok": false, "err": e.to_string()}),
         Ok(t) => {
             let w = ser(&t);
-            let mut out = json!({"ok": true, "w": w});
+            // the Debug text tells WHICH value was built (two variants of an untagged enum can serialise alike)
+            let mut out = json!({"ok": true, "w": w, "dbg": format!("{:?}", t)});
             if let Some(wv) = w.get("v") {
                 let w2 = match serde_json::from_value::<T>(wv.clone()) {
                     Err(e) => json!({"ok": false, "err": e.to_string()}),
@@ -57,28 +58,28 @@ pub fn de<T: DeserializeOwned + Serialize>(arg: &str) -> Value {
     })
 }
 
-fn res<T: Serialize, E: Display>(r: Result<T, E>) -> Value {
+fn res<T: Serialize + std::fmt::Debug, E: Display>(r: Result<T, E>) -> Value {
     match r {
-        Ok(t) => json!({"ok": true, "w": ser(&t)}),
+        Ok(t) => json!({"ok": true, "w": ser(&t), "dbg": format!("{:?}", t)}),
         Err(e) => json!({"ok": false, "err": e.to_string()}),
     }
 }
 
-pub fn from_str<T: FromStr + Serialize>(arg: &str) -> Value
+pub fn from_str<T: FromStr + Serialize + std::fmt::Debug>(arg: &str) -> Value
 where
     T::Err: Display,
 {
     guard(|| res(arg.parse::<T>()))
 }
 
-pub fn try_from_str<T: for<'a> TryFrom<&'a str> + Serialize>(arg: &str) -> Value
+pub fn try_from_str<T: for<'a> TryFrom<&'a str> + Serialize + std::fmt::Debug>(arg: &str) -> Value
 where
     for<'a> <T as TryFrom<&'a str>>::Error: Display,
 {
     guard(|| res(T::try_from(arg)))
 }
 
-pub fn try_from_string_ref<T: for<'a> TryFrom<&'a String> + Serialize>(arg: &str) -> Value
+pub fn try_from_string_ref<T: for<'a> TryFrom<&'a String> + Serialize + std::fmt::Debug>(arg: &str) -> Value
 where
     for<'a> <T as TryFrom<&'a String>>::Error: Display,
 {
@@ -86,7 +87,7 @@ where
     guard(|| res(T::try_from(&s)))
 }
 
-pub fn try_from_string<T: TryFrom<String> + Serialize>(arg: &str) -> Value
+pub fn try_from_string<T: TryFrom<String> + Serialize + std::fmt::Debug>(arg: &str) -> Value
 where
     <T as TryFrom<String>>::Error: Display,
 {
